@@ -4,11 +4,14 @@ Property theorems only; the model is in `Model/C11.lean`.
 
 Structure: heap lemmas (a write through an address beyond a prefix of the heap leaves the prefix alone),
 specifications of the pieces of `SignOCI` (`mergeLoop_spec`, `addUserMetadata_spec`, `resolve_spec`,
-`annotateAndPush_spec`), the per-call theorem `signOCI_spec` under the sequence invariant `Inv`, the closed form
-of a whole sequence `run_eq_spec` (induction over the call list, any length), `model_holds`, and the readable
-corollaries `signs_resolved_plus_metadata`, `refusals`, `frame` / `frame_heap`, `idempotent_history`,
+`annotateAndPush_spec`), the per-call theorem `signOCI_spec` under the history invariant `Inv`, the closed form
+of a whole history `run_eq_spec` (induction over the step list: signing calls interleaved with tag moves,
+deletions and re-creations, any length), `model_holds`, and the readable corollaries
+`signs_resolved_plus_metadata`, `refusals`, `frame` / `frame_heap`, `idempotent_history`,
+`signs_what_the_tag_names_now`, `deleted_tag_is_not_signed`, `success_independent_of_history`,
 `pushed_annotations_exact`, `merge_order_irrelevant`.
-Well-formedness hypothesis (explicit, decidable): `wf i` - the keys of every UserMetadata map are pairwise
+Well-formedness hypothesis (explicit, decidable, checked by the driver for every case): `wf i` - there is at least
+one artifact, the tag and every step name existing artifacts, and the keys of every UserMetadata map are pairwise
 different (true of any Go map; the harness builds the lists from Go maps).
 -/
 import NotationModel.Model.C11
@@ -188,63 +191,90 @@ def viewAnn (r : Repo) (arg : Arg) (m : AnnMap) : AnnMap :=
   | .tag => m
   | _ => if r.plainByDigest then [] else m
 
-def resolvableArg (r : Repo) : Arg → Bool
-  | .tag | .digest => true
-  | .otherDigest => r.anyDigest
-  | _ => false
+/-- the artifact `Resolve` answers with, as a function of what the tag names *now* -/
+def resolvedArtArg (r : Repo) (tag : Option Nat) (target : Nat) : Arg → Option Nat
+  | .tag => tag
+  | .digest => some target
+  | .otherDigest => if r.anyDigest then some 0 else none
+  | _ => none
 
-theorem handOut_spec (r : Repo) (h : Heap) (hlen : 0 < h.cells.length) :
-    h.cells <+: (resolve.handOut r h).1.cells ∧ validRef (resolve.handOut r h).1 (resolve.handOut r h).2 ∧
-    (resolve.handOut r h).1.read (resolve.handOut r h).2 = h.read (some 0) := by
-  unfold resolve.handOut
+theorem handOut_spec (r : Repo) (h : Heap) (k : Nat) (hk : k < h.cells.length) :
+    h.cells <+: (handOut r h k).1.cells ∧ validRef (handOut r h k).1 (handOut r h k).2 ∧
+    (handOut r h k).1.read (handOut r h k).2 = h.read (some k) := by
+  unfold handOut
   by_cases ha : r.aliased = true
-  · simp [ha, env, validRef, hlen]
+  · simp [ha, validRef, hk]
   · simp only [ha, if_false, Bool.false_eq_true]
     refine ⟨alloc_prefix h _, ?_, ?_⟩
     · show h.cells.length < _
       simp [alloc_cells]
     · exact alloc_read h _
 
-theorem resolve_spec (r : Repo) (h : Heap) (arg : Arg) (hlen : 0 < h.cells.length) :
-    match resolve r h arg with
-    | none => resolvableArg r arg = false
-    | some (h1, res) => resolvableArg r arg = true ∧ h.cells <+: h1.cells ∧ validRef h1 res ∧
-        h1.read res = viewAnn r arg (h.read (some 0)) := by
-  have ho := handOut_spec r h hlen
+theorem byDigest_spec (r : Repo) (h : Heap) (k : Nat) (hk : k < h.cells.length) :
+    (resolve.byDigest r h k).2.2 = k ∧
+    h.cells <+: (resolve.byDigest r h k).1.cells ∧
+    validRef (resolve.byDigest r h k).1 (resolve.byDigest r h k).2.1 ∧
+    (resolve.byDigest r h k).1.read (resolve.byDigest r h k).2.1 = (if r.plainByDigest then [] else h.read (some k)) := by
+  have ho := handOut_spec r h k hk
+  unfold resolve.byDigest
+  by_cases hp : r.plainByDigest = true
+  · simp [hp, validRef, Heap.read]
+  · simp only [hp, if_false, Bool.false_eq_true]
+    exact ⟨trivial, ho⟩
+
+/-- `Resolve` answers from the current state of the repository: the tag's target is `tag`, now -/
+theorem resolve_spec (r : Repo) (h : Heap) (tag : Option Nat) (target : Nat) (arg : Arg) (n : Nat)
+    (hn : 0 < n) (hnl : n ≤ h.cells.length) (htag : ∀ k, tag = some k → k < n) (htarget : target < n) :
+    match resolve r h tag target arg with
+    | none => resolvedArtArg r tag target arg = none
+    | some (h1, res, k) => resolvedArtArg r tag target arg = some k ∧ k < n ∧ h.cells <+: h1.cells ∧ validRef h1 res ∧
+        h1.read res = viewAnn r arg (h.read (some k)) := by
   cases arg
   · -- tag
-    simp only [resolve, resolvableArg, viewAnn]
-    exact ⟨trivial, ho⟩
+    cases tag with
+    | none => simp [resolve, resolvedArtArg]
+    | some k =>
+      have hk := htag k rfl
+      have ho := handOut_spec r h k (Nat.lt_of_lt_of_le hk hnl)
+      simp only [resolve, resolvedArtArg, viewAnn]
+      exact ⟨trivial, hk, ho⟩
   · -- digest
-    simp only [resolve, resolvableArg, viewAnn]
-    by_cases hp : r.plainByDigest = true
-    · simp [hp, validRef, Heap.read]
-    · simp only [hp, if_false, Bool.false_eq_true]
-      exact ⟨trivial, ho⟩
+    have hb := byDigest_spec r h target (Nat.lt_of_lt_of_le htarget hnl)
+    simp only [resolve, resolvedArtArg, viewAnn]
+    generalize resolve.byDigest r h target = res at hb
+    obtain ⟨h1, m, k⟩ := res
+    simp only [] at hb ⊢
+    obtain ⟨hk, hb⟩ := hb
+    subst hk
+    exact ⟨rfl, htarget, hb⟩
   · -- otherDigest
-    simp only [resolve, resolvableArg, viewAnn]
+    simp only [resolve, resolvedArtArg, viewAnn]
     by_cases hany : r.anyDigest = true
     · simp only [hany, if_true]
-      by_cases hp : r.plainByDigest = true
-      · simp [hp, validRef, Heap.read]
-      · simp only [hp, if_false, Bool.false_eq_true]
-        exact ⟨trivial, ho⟩
+      have hb := byDigest_spec r h 0 (Nat.lt_of_lt_of_le hn hnl)
+      generalize resolve.byDigest r h 0 = res at hb
+      obtain ⟨h1, m, k⟩ := res
+      simp only [] at hb ⊢
+      obtain ⟨hk, hb⟩ := hb
+      subst hk
+      exact ⟨rfl, hn, hb⟩
     · simp [hany]
-  · simp [resolve, resolvableArg]
-  · simp [resolve, resolvableArg]
+  · simp [resolve, resolvedArtArg]
+  · simp [resolve, resolvedArtArg]
 
 /-! ### annotations and push -/
 
-theorem annotateAndPush_spec (i : Input) (w : World) (ra : Option Arg) (sg : Option AnnMap) (resolved : MapRef)
-    (hv : validRef w.heap resolved) :
-    w.heap.cells <+: (annotateAndPush i w { resolveArg := ra, signed := sg } resolved).1.heap.cells ∧
-    (annotateAndPush i w { resolveArg := ra, signed := sg } resolved).1.handed = w.handed ∧
-    (annotateAndPush i w { resolveArg := ra, signed := sg } resolved).1.sigCount =
-      w.sigCount + (if i.signer.kind == .ok && i.repo.push != .fails then 1 else 0) ∧
-    (annotateAndPush i w { resolveArg := ra, signed := sg } resolved).2 =
+theorem annotateAndPush_spec (i : Input) (w : World) (ra : Option Arg) (sg : Option (Nat × AnnMap)) (resolved : MapRef)
+    (k : Nat) (hv : validRef w.heap resolved) :
+    w.heap.cells <+: (annotateAndPush i w { resolveArg := ra, signed := sg } resolved k).1.heap.cells ∧
+    (annotateAndPush i w { resolveArg := ra, signed := sg } resolved k).1.handed = w.handed ∧
+    (annotateAndPush i w { resolveArg := ra, signed := sg } resolved k).1.tag = w.tag ∧
+    (annotateAndPush i w { resolveArg := ra, signed := sg } resolved k).1.sigs =
+      (if i.signer.kind == .ok && i.repo.push != .fails then bump k w.sigs else w.sigs) ∧
+    (annotateAndPush i w { resolveArg := ra, signed := sg } resolved k).2 =
       { resolveArg := ra, signed := sg,
         ok := i.signer.kind == .ok && i.repo.push == .ok,
-        subject := if i.signer.kind == .ok then some (w.heap.read resolved) else none,
+        subject := if i.signer.kind == .ok then some (k, w.heap.read resolved) else none,
         pushAnn := if i.signer.kind == .ok then some (expectedPushAnn i) else none,
         returnedResolved := i.signer.kind == .ok && i.repo.push != .fails } := by
   have hpre := alloc_prefix w.heap i.signer.pluginAnn
@@ -273,89 +303,109 @@ theorem annotateAndPush_spec (i : Input) (w : World) (ra : Option Arg) (sg : Opt
   · simp
   · simp [alloc_addr, hw1]
 
-
 /-! ### one call -/
 
-/-- the invariant of a sequence: the cells set up at the start are a prefix of the heap (so they
-still have their contents), and every annotation map handed out still reads as it did then -/
+/-- the invariant of a history: the cells set up at the start are a prefix of the heap (so they still have
+their contents), every annotation map handed out still reads as it did then, and the tag names an artifact -/
 def Inv (i : Input) (w : World) : Prop :=
-  initCells i <+: w.heap.cells ∧ ∀ p ∈ w.handed, validRef w.heap p.1 ∧ w.heap.read p.1 = p.2
+  initCells i <+: w.heap.cells ∧ (∀ p ∈ w.handed, validRef w.heap p.1 ∧ w.heap.read p.1 = p.2) ∧
+  (∀ k, w.tag = some k → k < i.arts.length)
 
-theorem Inv_init (i : Input) : Inv i (initWorld i) :=
-  ⟨List.prefix_refl _, by intro p hp; simp [initWorld] at hp⟩
-
-theorem Inv_ext {i : Input} {w : World} (hinv : Inv i w) {h' : Heap} (hp : w.heap.cells <+: h'.cells) (n : Nat) :
-    Inv i { heap := h', handed := w.handed, sigCount := n } := by
-  refine ⟨List.IsPrefix.trans hinv.1 hp, ?_⟩
+theorem Inv_ext {i : Input} {w : World} (hinv : Inv i w) {h' : Heap} (hp : w.heap.cells <+: h'.cells) (n : List Nat) :
+    Inv i { heap := h', tag := w.tag, handed := w.handed, sigs := n } := by
+  refine ⟨List.IsPrefix.trans hinv.1 hp, ?_, hinv.2.2⟩
   intro p hpm
-  obtain ⟨hv, hr⟩ := hinv.2 p hpm
+  obtain ⟨hv, hr⟩ := hinv.2.1 p hpm
   exact ⟨validRef_of_prefix hp hv, by rw [read_of_prefix hp hv, hr]⟩
 
 theorem Inv_hand {i : Input} {w : World} (hinv : Inv i w) {r : MapRef} (hv : validRef w.heap r) :
-    Inv i { heap := w.heap, handed := w.handed ++ [(r, w.heap.read r)], sigCount := w.sigCount } := by
-  refine ⟨hinv.1, ?_⟩
+    Inv i { heap := w.heap, tag := w.tag, handed := w.handed ++ [(r, w.heap.read r)], sigs := w.sigs } := by
+  refine ⟨hinv.1, ?_, hinv.2.2⟩
   intro p hpm
   simp only [List.mem_append, List.mem_singleton] at hpm
   rcases hpm with hpm | rfl
-  · exact hinv.2 p hpm
+  · exact hinv.2.1 p hpm
   · exact ⟨hv, rfl⟩
 
-theorem Inv_repo {i : Input} {w : World} (hinv : Inv i w) : w.heap.read (some 0) = i.art.ann := by
-  have := prefix_getD hinv.1 (a := 0) (by simp [initCells]) ([] : AnnMap)
-  simpa [Heap.read, initCells] using this
+theorem Inv_of {i : Input} {w : World} (hinv : Inv i w) (w' : World) (hp : w.heap.cells <+: w'.heap.cells)
+    (hh : w'.handed = w.handed) (ht : w'.tag = w.tag) : Inv i w' := by
+  have := Inv_ext hinv hp w'.sigs
+  rw [← hh, ← ht] at this
+  exact this
 
-theorem Inv_nonempty {i : Input} {w : World} (hinv : Inv i w) : 0 < w.heap.cells.length :=
-  Nat.lt_of_lt_of_le (by simp [initCells]) hinv.1.length_le
+/-- moving or deleting the tag keeps the invariant (the tag must name an existing artifact) -/
+theorem Inv_retag {i : Input} {w : World} (hinv : Inv i w) (t : Option Nat) (ht : ∀ k, t = some k → k < i.arts.length) :
+    Inv i { w with tag := t } := ⟨hinv.1, hinv.2.1, ht⟩
 
-theorem resolvable_eq (i : Input) (c : Call) : resolvable i c = resolvableArg i.repo (refArg c.ref) := by
-  unfold resolvable resolvableArg
+theorem initCells_length (i : Input) : (initCells i).length = i.arts.length + 1 + i.steps.length := by
+  simp [initCells]; omega
+
+theorem Inv_len {i : Input} {w : World} (hinv : Inv i w) : i.arts.length ≤ w.heap.cells.length :=
+  Nat.le_trans (by rw [initCells_length]; omega) hinv.1.length_le
+
+/-- the repository's annotation map of artifact `k` has the contents it had at the start -/
+theorem Inv_art {i : Input} {w : World} (hinv : Inv i w) {k : Nat} (hk : k < i.arts.length) :
+    w.heap.read (some k) = (artAt i k).ann := by
+  have := prefix_getD hinv.1 (a := k) (by rw [initCells_length]; omega) ([] : AnnMap)
+  have hk' : k < (i.arts.map (·.ann)).length := by simpa using hk
+  simp only [Heap.read, this, initCells, List.append_assoc, List.getD_eq_getElem?_getD,
+    List.getElem?_append_left hk', artAt]
+  simp [List.getElem?_eq_getElem hk]
+
+theorem resolvedArt_eq (i : Input) (tag : Option Nat) (c : Step) :
+    resolvedArt i tag c = resolvedArtArg i.repo tag c.target (refArg c.ref) := by
+  unfold resolvedArt resolvedArtArg
   cases refArg c.ref <;> rfl
 
-theorem resolvedAnn_eq (i : Input) (c : Call) : resolvedAnn i c = viewAnn i.repo (refArg c.ref) i.art.ann := by
+theorem resolvedAnn_eq (i : Input) (c : Step) (k : Nat) :
+    resolvedAnn i c k = viewAnn i.repo (refArg c.ref) (artAt i k).ann := by
   unfold resolvedAnn viewAnn
   cases refArg c.ref <;> rfl
 
-theorem collides_eq (i : Input) (c : Call) : collides i c = c.md.any (collidesWith (resolvedAnn i c)) := rfl
+theorem collides_eq (i : Input) (c : Step) (k : Nat) : collides i c k = c.md.any (collidesWith (resolvedAnn i c k)) := rfl
 
-/-- the closed form of what a call shows: a function of the input, the call and the number of signatures before it -/
-def expectedTrace (i : Input) (c : Call) : Trace :=
-  { ok := expectedOk i c,
+/-- the closed form of what a call shows: a function of the input, the call and what the tag names at that moment -/
+def expectedTrace (i : Input) (tag : Option Nat) (c : Step) : Trace :=
+  { ok := expectedOk i tag c,
     resolveArg := if optsValid c.opts then some (refArg c.ref) else none,
-    signed := if reachesSigner i c then some (merged (resolvedAnn i c) c.md) else none,
-    subject := if reachesPush i c then some (resolvedAnn i c) else none,
-    pushAnn := if reachesPush i c then some (expectedPushAnn i) else none,
-    returnedResolved := pushes i c }
+    signed := (reachesSigner i tag c).map (fun k => (k, merged (resolvedAnn i c k) c.md)),
+    subject := (reachesPush i tag c).map (fun k => (k, resolvedAnn i c k)),
+    pushAnn := (reachesPush i tag c).map (fun _ => expectedPushAnn i),
+    returnedResolved := (pushes i tag c).isSome }
 
-theorem signOCI_spec (i : Input) (w : World) (c : Call) (hinv : Inv i w) (hd : distinctKeys c.md = true) :
+theorem signOCI_spec (i : Input) (w : World) (c : Step) (hinv : Inv i w) (hn : 0 < i.arts.length)
+    (hd : distinctKeys c.md = true) (ht : c.target < i.arts.length) :
     Inv i (signOCI i w c).1 ∧
     w.heap.cells <+: (signOCI i w c).1.heap.cells ∧
-    (signOCI i w c).1.sigCount = w.sigCount + (if pushes i c then 1 else 0) ∧
-    (signOCI i w c).2 = expectedTrace i c := by
+    (signOCI i w c).1.tag = w.tag ∧
+    (signOCI i w c).1.sigs = sigsAfter i w.tag c w.sigs ∧
+    (signOCI i w c).2 = expectedTrace i w.tag c := by
   unfold signOCI
   by_cases hov : optsValid c.opts = true
   · simp only [hov, Bool.not_true, Bool.false_eq_true, if_false]
-    have hres := resolve_spec i.repo w.heap (refArg c.ref) (Inv_nonempty hinv)
-    cases hr : resolve i.repo w.heap (refArg c.ref) with
+    have hres := resolve_spec i.repo w.heap w.tag c.target (refArg c.ref) i.arts.length hn (Inv_len hinv) hinv.2.2 ht
+    rw [← resolvedArt_eq] at hres
+    cases hr : resolve i.repo w.heap w.tag c.target (refArg c.ref) with
     | none =>
       rw [hr] at hres
       simp only [] at hres
-      refine ⟨hinv, List.prefix_refl _, ?_, ?_⟩
-      · simp [pushes, reachesPush, reachesSigner, resolvable_eq, hres]
-      · simp [expectedTrace, expectedOk, pushes, reachesPush, reachesSigner, resolvable_eq, hres, hov]
+      refine ⟨hinv, List.prefix_refl _, (by first | rfl | trivial), ?_, ?_⟩
+      · simp [sigsAfter, pushes, reachesPush, reachesSigner, hres]
+      · simp [expectedTrace, expectedOk, pushes, reachesPush, reachesSigner, hres, hov]
     | some pr =>
-      obtain ⟨h1, resolved⟩ := pr
+      obtain ⟨h1, resolved, k⟩ := pr
       rw [hr] at hres
       simp only [] at hres
-      obtain ⟨hrs, hp1, hv1, hrd1⟩ := hres
-      rw [Inv_repo hinv, ← resolvedAnn_eq] at hrd1
-      have hinv1 : Inv i { heap := h1, handed := w.handed ++ [(resolved, h1.read resolved)], sigCount := w.sigCount } :=
-        Inv_hand (w := { heap := h1, handed := w.handed, sigCount := w.sigCount }) (Inv_ext hinv hp1 _) hv1
+      obtain ⟨hrs, hkn, hp1, hv1, hrd1⟩ := hres
+      rw [Inv_art hinv hkn, ← resolvedAnn_eq] at hrd1
+      have hinv1 : Inv i { heap := h1, tag := w.tag, handed := w.handed ++ [(resolved, h1.read resolved)], sigs := w.sigs } :=
+        Inv_hand (w := { heap := h1, tag := w.tag, handed := w.handed, sigs := w.sigs }) (Inv_ext hinv hp1 _) hv1
       simp only []
       by_cases harg : refArg c.ref = .otherDigest
       · simp only [harg, beq_self_eq_true, if_true]
-        refine ⟨hinv1, hp1, ?_, ?_⟩
-        · simp [pushes, reachesPush, reachesSigner, refused, digestMismatch, harg]
-        · simp [expectedTrace, expectedOk, pushes, reachesPush, reachesSigner, refused, digestMismatch, harg, hov]
+        refine ⟨hinv1, hp1, (by first | rfl | trivial), ?_, ?_⟩
+        · simp [sigsAfter, pushes, reachesPush, reachesSigner, hrs, refused, digestMismatch, harg]
+        · simp [expectedTrace, expectedOk, pushes, reachesPush, reachesSigner, hrs, refused, digestMismatch, harg, hov]
       · have hne : (refArg c.ref == Arg.otherDigest) = false := by simpa using harg
         simp only [hne, Bool.false_eq_true, if_false]
         obtain ⟨hp2, hv2, hok, hmerged⟩ := addUserMetadata_spec h1 resolved c.md hv1 hd
@@ -363,176 +413,256 @@ theorem signOCI_spec (i : Input) (w : World) (c : Call) (hinv : Inv i w) (hd : d
         generalize haum : addUserMetadata h1 resolved c.md = res at hp2 hv2 hok hmerged
         obtain ⟨h2, toSign, ok⟩ := res
         simp only [] at hp2 hv2 hok hmerged ⊢
-        have hinv2 : Inv i { heap := h2, handed := w.handed ++ [(resolved, h1.read resolved)], sigCount := w.sigCount } :=
+        have hinv2 : Inv i { heap := h2, tag := w.tag, handed := w.handed ++ [(resolved, h1.read resolved)], sigs := w.sigs } :=
           Inv_ext hinv1 hp2 _
-        have hrefused : refused i c = !ok := by
+        have hrefused : refused i c k = !ok := by
           simp [refused, digestMismatch, hne, hasReserved, collides_eq, hok]
         cases hokv : ok with
         | false =>
           simp only [Bool.not_false, if_true]
-          refine ⟨hinv2, List.IsPrefix.trans hp1 hp2, ?_, ?_⟩
-          · simp [pushes, reachesPush, reachesSigner, hrefused, hokv]
-          · simp [expectedTrace, expectedOk, pushes, reachesPush, reachesSigner, hrefused, hokv, hov]
+          refine ⟨hinv2, List.IsPrefix.trans hp1 hp2, (by first | rfl | trivial), ?_, ?_⟩
+          · simp [sigsAfter, pushes, reachesPush, reachesSigner, hrs, hrefused, hokv]
+          · simp [expectedTrace, expectedOk, pushes, reachesPush, reachesSigner, hrs, hrefused, hokv, hov]
         | true =>
           simp only [Bool.not_true, Bool.false_eq_true, if_false]
           have hv2' : validRef h2 resolved := validRef_of_prefix hp2 hv1
-          obtain ⟨hp3, hh3, hs3, ht3⟩ := annotateAndPush_spec i
-            { heap := h2, handed := w.handed ++ [(resolved, h1.read resolved)], sigCount := w.sigCount }
-            (some (refArg c.ref)) (some (h2.read toSign)) resolved hv2'
-          refine ⟨?_, ?_, ?_, ?_⟩
-          · have := Inv_ext hinv2 hp3 (annotateAndPush i
-              { heap := h2, handed := w.handed ++ [(resolved, h1.read resolved)], sigCount := w.sigCount }
-              { resolveArg := some (refArg c.ref), signed := some (h2.read toSign) } resolved).1.sigCount
-            rw [← hh3] at this
-            exact this
+          obtain ⟨hp3, hh3, htg3, hs3, ht3⟩ := annotateAndPush_spec i
+            { heap := h2, tag := w.tag, handed := w.handed ++ [(resolved, h1.read resolved)], sigs := w.sigs }
+            (some (refArg c.ref)) (some (k, h2.read toSign)) resolved k hv2'
+          refine ⟨?_, ?_, htg3, ?_, ?_⟩
+          · exact Inv_of hinv2 _ hp3 hh3 htg3
           · exact List.IsPrefix.trans hp1 (List.IsPrefix.trans hp2 hp3)
           · rw [hs3]
-            simp [pushes, reachesPush, reachesSigner, hrefused, hokv, hov, resolvable_eq, hrs]
+            cases hkind : (i.signer.kind == SignerKind.ok) <;> cases hpk : i.repo.push <;>
+              simp [sigsAfter, pushes, reachesPush, reachesSigner, hrs, hrefused, hokv, hov, hkind, hpk]
           · rw [ht3, hmerged (by rw [hokv]), read_of_prefix hp2 hv1, hrd1]
-            simp [expectedTrace, expectedOk, pushes, reachesPush, reachesSigner, hrefused, hokv, hov, resolvable_eq, hrs]
+            cases hkind : (i.signer.kind == SignerKind.ok) <;> cases hpk : i.repo.push <;>
+              simp [expectedTrace, expectedOk, pushes, reachesPush, reachesSigner, hrs, hrefused, hokv, hov, hkind, hpk]
   · have hov' : optsValid c.opts = false := by simpa using hov
     simp only [hov', Bool.not_false, if_true]
-    refine ⟨hinv, List.prefix_refl _, ?_, ?_⟩
-    · simp [pushes, reachesPush, reachesSigner, hov']
+    refine ⟨hinv, List.prefix_refl _, (by first | rfl | trivial), ?_, ?_⟩
+    · simp [sigsAfter, pushes, reachesPush, reachesSigner, hov']
     · simp [expectedTrace, expectedOk, pushes, reachesPush, reachesSigner, hov']
 
+/-! ### histories -/
 
-/-! ### sequences -/
-
-def expectedObs (i : Input) (c : Call) (before : Nat) : CallObs :=
-  { ok := expectedOk i c,
+def expectedObs (i : Input) (tag : Option Nat) (c : Step) (before : List Nat) : CallObs :=
+  { ok := expectedOk i tag c,
     resolveArg := if optsValid c.opts then some (refArg c.ref) else none,
-    signed := if reachesSigner i c then some (mkDesc i.art (merged (resolvedAnn i c) c.md)) else none,
-    subject := if reachesPush i c then some (mkDesc i.art (resolvedAnn i c)) else none,
-    pushAnn := if reachesPush i c then some (expectedPushAnn i) else none,
-    returned := if pushes i c then .resolved else .zero,
+    signed := (reachesSigner i tag c).map (fun k => mkDesc i (k, merged (resolvedAnn i c k) c.md)),
+    subject := (reachesPush i tag c).map (fun k => mkDesc i (k, resolvedAnn i c k)),
+    pushAnn := (reachesPush i tag c).map (fun _ => expectedPushAnn i),
+    returned := if (pushes i tag c).isSome then .resolved else .zero,
     repoViewSame := true, handedSame := true, optsSame := true,
-    sigCount := before + (if pushes i c then 1 else 0) }
+    sigCounts := sigsAfter i tag c before }
 
-/-- the whole sequence in closed form -/
-def specCalls (i : Input) : List Call → Nat → List CallObs
-  | [], _ => []
-  | c :: cs, n => expectedObs i c n :: specCalls i cs (n + (if pushes i c then 1 else 0))
+/-- the whole history in closed form: the tag follows the `tagTo` / `untag` steps and nothing else; the signature
+counts follow the pushes -/
+def specSteps (i : Input) : List Step → Option Nat → List Nat → List CallObs
+  | [], _, _ => []
+  | s :: ss, tag, sigs =>
+    match s.op with
+    | .sign => expectedObs i tag s sigs :: specSteps i ss tag (sigsAfter i tag s sigs)
+    | .tagTo => specSteps i ss (some s.to) sigs
+    | .untag => specSteps i ss none sigs
+
+theorem drop_take_mid {α} (a b c : List α) (n m : Nat) (hn : a.length = n) (hm : b.length = m) :
+    ((a ++ b ++ c).drop n).take m = b := by
+  subst hn; subst hm; simp
+
+theorem getD_mid {α} (a c : List α) (x d : α) (n : Nat) (hn : a.length = n) : (a ++ x :: c).getD n d = x := by
+  subst hn; simp
 
 theorem observe_of_Inv (i : Input) (w : World) (t : Trace) (hinv : Inv i w) :
-    observe i w t =
-      { ok := t.ok, resolveArg := t.resolveArg, signed := t.signed.map (mkDesc i.art),
-        subject := t.subject.map (mkDesc i.art), pushAnn := t.pushAnn,
+    observe i w.tag w t =
+      { ok := t.ok, resolveArg := t.resolveArg, signed := t.signed.map (mkDesc i),
+        subject := t.subject.map (mkDesc i), pushAnn := t.pushAnn,
         returned := if t.returnedResolved then .resolved else .zero,
-        repoViewSame := true, handedSame := true, optsSame := true, sigCount := w.sigCount } := by
-  have h0 : (w.heap.read (some env.repoAnn) == i.art.ann) = true := by
-    simp [env, Inv_repo hinv]
+        repoViewSame := true, handedSame := true, optsSame := true, sigCounts := w.sigs } := by
+  have h0 : (w.heap.cells.take i.arts.length == i.arts.map (·.ann)) = true := by
+    obtain ⟨t, ht⟩ := hinv.1
+    simp [← ht, initCells]
   have h1 : (w.handed.all fun x => match x with | (r, snap) => w.heap.read r == snap) = true := by
     rw [List.all_eq_true]
     intro p hp
     obtain ⟨r, snap⟩ := p
-    simpa using (hinv.2 _ hp).2
-  have h2 : (w.heap.read (some env.cfg) == i.pluginConfig) = true := by
-    have := prefix_getD hinv.1 (a := 1) (by simp [initCells]) ([] : AnnMap)
-    simp [Heap.read, initCells, env] at this ⊢
-    exact this
-  have h3 : ((w.heap.cells.drop env.metaBase).take i.calls.length == i.calls.map (·.md)) = true := by
+    simpa using (hinv.2.1 _ hp).2
+  have h2 : (w.heap.read (some i.arts.length) == i.pluginConfig) = true := by
     obtain ⟨t, ht⟩ := hinv.1
-    simp [← ht, initCells, env]
-  simp only [observe, h0, h1, h2, h3, Bool.and_self]
+    have := getD_mid (i.arts.map (·.ann)) (i.steps.map (·.md) ++ t) i.pluginConfig [] i.arts.length (by simp)
+    simp only [Heap.read, ← ht, initCells, List.append_assoc, List.singleton_append, List.cons_append, List.nil_append, this, beq_self_eq_true]
+  have h3 : ((w.heap.cells.drop (i.arts.length + 1)).take i.steps.length == i.steps.map (·.md)) = true := by
+    obtain ⟨t, ht⟩ := hinv.1
+    have := drop_take_mid (i.arts.map (·.ann) ++ [i.pluginConfig]) (i.steps.map (·.md)) t (i.arts.length + 1)
+      i.steps.length (by simp) (by simp)
+    simp only [← ht, initCells, this, beq_self_eq_true]
+  simp only [observe, h0, h1, h2, h3, Bool.and_self, beq_self_eq_true]
 
-theorem runCalls_spec (i : Input) : ∀ (cs : List Call) (w : World), Inv i w →
-    (cs.all (fun c => distinctKeys c.md)) = true → runCalls i w cs = specCalls i cs w.sigCount := by
-  intro cs
-  induction cs with
+def stepOk (i : Input) (s : Step) : Bool :=
+  distinctKeys s.md && decide (s.to < i.arts.length) && decide (s.target < i.arts.length)
+
+theorem runSteps_spec (i : Input) (hn : 0 < i.arts.length) : ∀ (ss : List Step) (w : World), Inv i w →
+    (ss.all (stepOk i)) = true → runSteps i w ss = specSteps i ss w.tag w.sigs := by
+  intro ss
+  induction ss with
   | nil => intro w _ _; rfl
-  | cons c cs ih =>
+  | cons s ss ih =>
     intro w hinv hwf
-    simp only [List.all_cons, Bool.and_eq_true] at hwf
-    obtain ⟨hinv', _, hs, ht⟩ := signOCI_spec i w c hinv hwf.1
-    simp only [runCalls, specCalls]
-    rw [ih _ hinv' hwf.2, observe_of_Inv i _ _ hinv', hs, ht]
-    simp only [expectedTrace, expectedObs]
-    congr 2
-    · by_cases h : reachesSigner i c <;> simp [h]
-    · by_cases h : reachesPush i c <;> simp [h]
+    simp only [List.all_cons, Bool.and_eq_true, stepOk, decide_eq_true_eq] at hwf
+    obtain ⟨⟨⟨hd, hto⟩, htarget⟩, hrest⟩ := hwf
+    have hrest' : (ss.all (stepOk i)) = true := hrest
+    cases hop : s.op with
+    | sign =>
+      obtain ⟨hinv', _, htag, hs, ht⟩ := signOCI_spec i w s hinv hn hd htarget
+      simp only [runSteps, specSteps, hop]
+      rw [ih _ hinv' hrest', htag, hs]
+      have hobs := observe_of_Inv i (signOCI i w s).1 (signOCI i w s).2 hinv'
+      rw [htag] at hobs
+      rw [hobs, hs, ht]
+      simp only [expectedTrace, expectedObs, Option.map_map]
+      rfl
+    | tagTo =>
+      simp only [runSteps, specSteps, hop]
+      exact ih _ (Inv_retag hinv (some s.to) (by intro k hk; cases hk; exact hto)) hrest'
+    | untag =>
+      simp only [runSteps, specSteps, hop]
+      exact ih _ (Inv_retag hinv none (by intro k hk; cases hk)) hrest'
 
-/-- **history independence**: what each call of a sequence shows is a function of the input, that call and the
-number of signatures pushed before it - nothing an earlier call did to maps can be seen by a later one. -/
-theorem run_eq_spec (i : Input) (hwf : wf i = true) : run i = { calls := specCalls i i.calls 0 } := by
+theorem Inv_init (i : Input) (htag : ∀ k, i.tag = some k → k < i.arts.length) : Inv i (initWorld i) :=
+  ⟨List.prefix_refl _, by intro p hp; simp [initWorld] at hp, htag⟩
+
+theorem wf_parts (i : Input) (hwf : wf i = true) :
+    0 < i.arts.length ∧ (∀ k, i.tag = some k → k < i.arts.length) ∧ (i.steps.all (stepOk i)) = true := by
+  simp only [wf, Bool.and_eq_true, decide_eq_true_eq] at hwf
+  obtain ⟨⟨h1, h2⟩, h3⟩ := hwf
+  refine ⟨h1, ?_, h3⟩
+  intro k hk
+  rw [hk] at h2
+  simpa using h2
+
+/-- **history independence**: what each signing call of a history shows is a function of the input, that call,
+what the tag names at that moment and the signatures pushed before - nothing an earlier call did to maps, and
+nothing an earlier call resolved, can be seen by a later one. -/
+theorem run_eq_spec (i : Input) (hwf : wf i = true) :
+    run i = { calls := specSteps i i.steps i.tag (i.arts.map (fun _ => 0)) } := by
+  obtain ⟨hn, htag, hsteps⟩ := wf_parts i hwf
   unfold run
-  rw [runCalls_spec i i.calls (initWorld i) (Inv_init i) hwf]
+  rw [runSteps_spec i hn i.steps (initWorld i) (Inv_init i htag) hsteps]
   rfl
-
 
 /-! ### the property -/
 
 def allTrue : CallVerdict := ⟨true, true, true, true, true, true, true, true⟩
 
-theorem callVerdict_expected (i : Input) (c : Call) (n : Nat) :
-    callVerdict i c n (expectedObs i c n) = allTrue := by
-  cases ha : optsValid c.opts <;> cases hb : resolvable i c <;> cases hd : refused i c <;>
+theorem callVerdict_expected (i : Input) (tag : Option Nat) (c : Step) (n : List Nat) :
+    callVerdict i tag c n (expectedObs i tag c n) = allTrue := by
+  cases ha : optsValid c.opts <;> cases hb : resolvedArt i tag c <;>
     cases he : (i.signer.kind == SignerKind.ok) <;> cases hp : i.repo.push <;>
-    simp [allTrue, callVerdict, expectedObs, expectedOk, pushes, reachesPush, reachesSigner, ha, hb, hd, he, hp]
+    simp [allTrue, callVerdict, expectedObs, expectedOk, sigsAfter, pushes, reachesPush, reachesSigner, ha, hb, he, hp]
+  all_goals
+    rename_i k
+    cases hd : refused i c k <;> simp [hd]
 
-theorem specCalls_length (i : Input) : ∀ (cs : List Call) (n : Nat), (specCalls i cs n).length = cs.length := by
-  intro cs
-  induction cs with
-  | nil => intro n; rfl
-  | cons c cs ih => intro n; simp [specCalls, ih]
+theorem specSteps_length (i : Input) : ∀ (ss : List Step) (tag : Option Nat) (n : List Nat),
+    (specSteps i ss tag n).length = (ss.filter (fun s => s.op == .sign)).length := by
+  intro ss
+  induction ss with
+  | nil => intro _ _; rfl
+  | cons s ss ih =>
+    intro tag n
+    cases hop : s.op <;> simp [specSteps, hop, ih]
 
-theorem allCalls_spec (i : Input) (f : CallVerdict → Bool)
-    (hf : f allTrue = true) :
-    ∀ (cs : List Call) (n : Nat), allCalls i f cs n (specCalls i cs n) = true := by
-  intro cs
-  induction cs with
-  | nil => intro n; rfl
-  | cons c cs ih =>
-    intro n
-    simp only [specCalls, allCalls, callVerdict_expected, hf, Bool.true_and]
-    exact ih _
+theorem allCalls_spec (i : Input) (f : CallVerdict → Bool) (hf : f allTrue = true) :
+    ∀ (ss : List Step) (tag : Option Nat) (n : List Nat), allCalls i f ss tag n (specSteps i ss tag n) = true := by
+  intro ss
+  induction ss with
+  | nil => intro _ _; rfl
+  | cons s ss ih =>
+    intro tag n
+    cases hop : s.op with
+    | sign =>
+      simp only [specSteps, allCalls, hop, callVerdict_expected, hf, Bool.true_and]
+      exact ih _ _
+    | tagTo => simp only [specSteps, allCalls, hop]; exact ih _ _
+    | untag => simp only [specSteps, allCalls, hop]; exact ih _ _
 
 /-- **C11, the whole property**: every clause of `Holds` is true of the model's behaviour, for every repository
-behaviour, artifact, signer, option maps and every sequence of calls of any length (hypothesis: the keys of each
-UserMetadata map are pairwise different, as in any Go map; the harness emits maps). -/
+behaviour, set of artifacts, signer, option maps and every history of signing calls, tag moves, deletions and
+re-creations of any length (hypothesis `wf`: there is an artifact, tag and steps name existing artifacts, the keys of
+each UserMetadata map are pairwise different - the driver checks it for every case). -/
 theorem model_holds (i : Input) (hwf : wf i = true) : Holds i (run i) = true := by
   rw [run_eq_spec i hwf]
-  have h1 := allCalls_spec i (·.signsResolvedPlusMetadata) rfl i.calls 0
-  have h2 := allCalls_spec i (·.subjectIsResolved) rfl i.calls 0
-  have h3 := allCalls_spec i (·.pushedAnnotationsExact) rfl i.calls 0
-  have h4 := allCalls_spec i (·.refusals) rfl i.calls 0
-  have h5 := allCalls_spec i (·.frame) rfl i.calls 0
-  have h6 := allCalls_spec i (·.oneSignature) rfl i.calls 0
-  have h7 := allCalls_spec i (·.succeedsIndependentOfHistory) rfl i.calls 0
-  have h8 := allCalls_spec i (·.resolveAsked) rfl i.calls 0
-  simp [Holds, clauses, Clauses.holds, specCalls_length, hwf, h1, h2, h3, h4, h5, h6, h7, h8]
-
+  have h1 := allCalls_spec i (·.signsResolvedPlusMetadata) rfl i.steps i.tag (i.arts.map (fun _ => 0))
+  have h2 := allCalls_spec i (·.subjectIsResolved) rfl i.steps i.tag (i.arts.map (fun _ => 0))
+  have h3 := allCalls_spec i (·.pushedAnnotationsExact) rfl i.steps i.tag (i.arts.map (fun _ => 0))
+  have h4 := allCalls_spec i (·.refusals) rfl i.steps i.tag (i.arts.map (fun _ => 0))
+  have h5 := allCalls_spec i (·.frame) rfl i.steps i.tag (i.arts.map (fun _ => 0))
+  have h6 := allCalls_spec i (·.oneSignature) rfl i.steps i.tag (i.arts.map (fun _ => 0))
+  have h7 := allCalls_spec i (·.succeedsIndependentOfHistory) rfl i.steps i.tag (i.arts.map (fun _ => 0))
+  have h8 := allCalls_spec i (·.resolveAsked) rfl i.steps i.tag (i.arts.map (fun _ => 0))
+  simp [Holds, clauses, Clauses.holds, specSteps_length, signSteps, hwf, h1, h2, h3, h4, h5, h6, h7, h8]
 
 /-! ### readable corollaries -/
 
-/-- signatures pushed by the first `j` calls -/
-def sigsBefore (i : Input) (cs : List Call) (j : Nat) : Nat := ((cs.take j).filter (pushes i)).length
+/-- what the tag names after a prefix of a history: it follows the `tagTo` / `untag` steps - signing never moves it -/
+def tagAfter : Option Nat → List Step → Option Nat
+  | tag, [] => tag
+  | tag, s :: ss =>
+    match s.op with
+    | .sign => tagAfter tag ss
+    | .tagTo => tagAfter (some s.to) ss
+    | .untag => tagAfter none ss
 
-theorem specCalls_get (i : Input) : ∀ (cs : List Call) (n j : Nat),
-    (specCalls i cs n)[j]? = (cs[j]?).map (fun c => expectedObs i c (n + sigsBefore i cs j)) := by
-  intro cs
-  induction cs with
-  | nil => intro n j; simp [specCalls]
-  | cons c cs ih =>
-    intro n j
-    cases j with
-    | zero => simp [specCalls, sigsBefore]
-    | succ j =>
-      simp only [specCalls, List.getElem?_cons_succ, ih]
-      cases cs[j]? with
-      | none => rfl
-      | some c' =>
-        simp only [Option.map_some, sigsBefore, List.take_succ_cons, List.filter_cons]
-        by_cases hp : pushes i c = true
-        · simp [hp]; congr 1; omega
-        · simp [hp]
+/-- the signatures attached to each artifact after a prefix of a history -/
+def sigsThrough (i : Input) : Option Nat → List Nat → List Step → List Nat
+  | _, sigs, [] => sigs
+  | tag, sigs, s :: ss =>
+    match s.op with
+    | .sign => sigsThrough i tag (sigsAfter i tag s sigs) ss
+    | .tagTo => sigsThrough i (some s.to) sigs ss
+    | .untag => sigsThrough i none sigs ss
 
-/-- the observation of the `j`-th call of any sequence, in closed form -/
-theorem call_obs (i : Input) (hwf : wf i = true) {j : Nat} {c : Call} {o : CallObs}
-    (hc : i.calls[j]? = some c) (ho : (run i).calls[j]? = some o) :
-    o = expectedObs i c (sigsBefore i i.calls j) := by
+def nSigns (ss : List Step) : Nat := (ss.filter (fun s => s.op == .sign)).length
+
+def noSigs (i : Input) : List Nat := i.arts.map (fun _ => 0)
+
+theorem specSteps_append (i : Input) : ∀ (pre post : List Step) (tag : Option Nat) (sigs : List Nat),
+    specSteps i (pre ++ post) tag sigs =
+      specSteps i pre tag sigs ++ specSteps i post (tagAfter tag pre) (sigsThrough i tag sigs pre) := by
+  intro pre
+  induction pre with
+  | nil => intro post tag sigs; rfl
+  | cons s ss ih =>
+    intro post tag sigs
+    cases hop : s.op <;> simp [specSteps, tagAfter, sigsThrough, hop, ih]
+
+theorem tagAfter_append (tag : Option Nat) : ∀ (pre post : List Step),
+    tagAfter tag (pre ++ post) = tagAfter (tagAfter tag pre) post := by
+  intro pre
+  induction pre generalizing tag with
+  | nil => intro post; rfl
+  | cons s ss ih =>
+    intro post
+    cases hop : s.op <;> simp [tagAfter, hop, ih]
+
+/-- a signing step leaves the tag where it was; a `tagTo` step puts it on its artifact whatever was resolved,
+signed or remembered before; `untag` removes it -/
+theorem tagAfter_snoc (tag : Option Nat) (pre : List Step) (s : Step) :
+    tagAfter tag (pre ++ [s]) =
+      (match s.op with | .sign => tagAfter tag pre | .tagTo => some s.to | .untag => none) := by
+  rw [tagAfter_append]
+  cases hop : s.op <;> simp [tagAfter, hop]
+
+/-- the observation of a signing step anywhere in any history, in closed form -/
+theorem call_obs (i : Input) (hwf : wf i = true) {pre post : List Step} {s : Step} {o : CallObs}
+    (hsplit : i.steps = pre ++ s :: post) (hs : s.op = .sign) (ho : (run i).calls[nSigns pre]? = some o) :
+    o = expectedObs i (tagAfter i.tag pre) s (sigsThrough i i.tag (noSigs i) pre) := by
   rw [run_eq_spec i hwf] at ho
-  simp only [specCalls_get, hc, Option.map_some, Nat.zero_add] at ho
+  simp only [hsplit, specSteps_append] at ho
+  have hlen : nSigns pre = (specSteps i pre i.tag (i.arts.map fun _ => 0)).length := by
+    rw [specSteps_length]; rfl
+  rw [hlen, List.getElem?_append_right (Nat.le_refl _), Nat.sub_self] at ho
+  simp only [specSteps, hs, List.getElem?_cons_zero] at ho
   exact (Option.some.inj ho).symm
 
 theorem look_none_of_not_any (k : Text) : ∀ m : AnnMap, m.any (fun kv => kv.1 == k) = false → look k m = none := by
@@ -565,99 +695,262 @@ theorem look_merged (k : Text) : ∀ (md base : AnnMap), distinctKeys md = true 
       simp [look, look_none_of_not_any k rest hd.1]
     · simp [look, hk]
 
-/-- **signs exactly what was resolved plus the metadata** - at any position of any sequence: the descriptor
-handed to the signer is the resolved descriptor (media type, digest, size) whose annotations are the resolved
-annotations + user metadata; the subject pushed is the resolved descriptor itself (without the metadata). -/
-theorem signs_resolved_plus_metadata (i : Input) (hwf : wf i = true) {j : Nat} {c : Call} {o : CallObs}
-    (hc : i.calls[j]? = some c) (ho : (run i).calls[j]? = some o) :
-    (∀ d, o.signed = some d → d = mkDesc i.art (merged (resolvedAnn i c) c.md)) ∧
-    (∀ s, o.subject = some s → s = mkDesc i.art (resolvedAnn i c)) ∧
+/-- **signs exactly what was resolved plus the metadata** - at any position of any history: the descriptor handed
+to the signer is the descriptor of the artifact the reference resolves to *at that moment* (media type, digest,
+size) whose annotations are the resolved annotations + user metadata; the subject pushed is that resolved
+descriptor itself (without the metadata). -/
+theorem signs_resolved_plus_metadata (i : Input) (hwf : wf i = true) {pre post : List Step} {s : Step} {o : CallObs}
+    (hsplit : i.steps = pre ++ s :: post) (hs : s.op = .sign) (ho : (run i).calls[nSigns pre]? = some o) :
+    (∀ d, o.signed = some d → ∃ k, resolvedArt i (tagAfter i.tag pre) s = some k ∧
+        d = mkDesc i (k, merged (resolvedAnn i s k) s.md)) ∧
+    (∀ d, o.subject = some d → ∃ k, resolvedArt i (tagAfter i.tag pre) s = some k ∧
+        d = mkDesc i (k, resolvedAnn i s k)) ∧
     (o.ok = true → o.signed.isSome = true ∧ o.subject.isSome = true ∧ o.returned = .resolved) := by
-  rw [call_obs i hwf hc ho]
+  rw [call_obs i hwf hsplit hs ho]
+  have key : ∀ k, reachesSigner i (tagAfter i.tag pre) s = some k → resolvedArt i (tagAfter i.tag pre) s = some k := by
+    intro k hk
+    simp only [reachesSigner] at hk
+    split at hk
+    · split at hk
+      · rename_i k' hk'
+        split at hk
+        · simp at hk
+        · simp at hk; rw [hk'] ; simp [hk]
+      · simp at hk
+    · simp at hk
+  have key2 : ∀ k, reachesPush i (tagAfter i.tag pre) s = some k → reachesSigner i (tagAfter i.tag pre) s = some k := by
+    intro k hk
+    simp only [reachesPush] at hk
+    split at hk
+    · exact hk
+    · simp at hk
   refine ⟨?_, ?_, ?_⟩
   · intro d hdd
-    by_cases h : reachesSigner i c = true <;> simp [expectedObs, h] at hdd
-    exact hdd.symm
-  · intro s hs
-    by_cases h : reachesPush i c = true <;> simp [expectedObs, h] at hs
-    exact hs.symm
+    simp only [expectedObs] at hdd
+    cases hr : reachesSigner i (tagAfter i.tag pre) s with
+    | none => simp [hr] at hdd
+    | some k => simp [hr] at hdd; exact ⟨k, key k hr, hdd.symm⟩
+  · intro d hdd
+    simp only [expectedObs] at hdd
+    cases hr : reachesPush i (tagAfter i.tag pre) s with
+    | none => simp [hr] at hdd
+    | some k => simp [hr] at hdd; exact ⟨k, key k (key2 k hr), hdd.symm⟩
   · intro hok
     simp only [expectedObs, expectedOk, Bool.and_eq_true] at hok
-    have hrs : reachesSigner i c = true := by
-      have := hok.1
-      simp only [reachesPush, Bool.and_eq_true] at this
-      exact this.1
-    have hp : pushes i c = true := by
-      simp only [pushes, hok.1, Bool.true_and]
-      have := hok.2
-      cases hpk : i.repo.push <;> simp [hpk] at this ⊢
-    simp [expectedObs, hrs, hok.1, hp]
+    cases hr : reachesPush i (tagAfter i.tag pre) s with
+    | none => simp [hr] at hok
+    | some k =>
+      have hp : i.repo.push = .ok := by simpa using hok.2
+      simp [expectedObs, hr, key2 k hr, pushes, hp]
 
 /-- **refusals**: metadata under the reserved prefix, metadata that would overwrite an annotation of the artifact
-and a digest reference resolving to another digest each end in an error; the signer is not called, nothing is
-pushed, the signature count stays. -/
-theorem refusals (i : Input) (hwf : wf i = true) {j : Nat} {c : Call} {o : CallObs}
-    (hc : i.calls[j]? = some c) (ho : (run i).calls[j]? = some o)
-    (h : hasReserved c = true ∨ collides i c = true ∨ digestMismatch c = true) :
+resolved now, and a digest reference resolving to another digest each end in an error; the signer is not called,
+nothing is pushed, the signature counts stay. -/
+theorem refusals (i : Input) (hwf : wf i = true) {pre post : List Step} {s : Step} {o : CallObs}
+    (hsplit : i.steps = pre ++ s :: post) (hs : s.op = .sign) (ho : (run i).calls[nSigns pre]? = some o)
+    (h : hasReserved s = true ∨ digestMismatch s = true ∨
+      ∃ k, resolvedArt i (tagAfter i.tag pre) s = some k ∧ collides i s k = true) :
     o.ok = false ∧ o.signed = none ∧ o.subject = none ∧ o.pushAnn = none ∧ o.returned = .zero ∧
-    o.sigCount = sigsBefore i i.calls j := by
-  have hr : refused i c = true := by
-    rcases h with h | h | h <;> simp [refused, h]
-  rw [call_obs i hwf hc ho]
-  simp [expectedObs, expectedOk, pushes, reachesPush, reachesSigner, hr]
+    o.sigCounts = sigsThrough i i.tag (noSigs i) pre := by
+  have hr : reachesSigner i (tagAfter i.tag pre) s = none := by
+    simp only [reachesSigner]
+    split
+    · split
+      · rename_i k hk
+        have : refused i s k = true := by
+          rcases h with h | h | ⟨k', hk', hc⟩
+          · simp [refused, h]
+          · simp [refused, h]
+          · rw [hk] at hk'; cases hk'; simp [refused, hc]
+        simp [this]
+      · rfl
+    · rfl
+  rw [call_obs i hwf hsplit hs ho]
+  simp [expectedObs, expectedOk, sigsAfter, pushes, reachesPush, hr]
 
-/-- **frame, as observed**: after every call of every sequence - successful or not - the repository resolves the
-artifact exactly as before the first call, every descriptor it handed out is unchanged, and so are the caller's
-UserMetadata and PluginConfig maps; the signature count grows by one exactly when the call pushed. -/
-theorem frame (i : Input) (hwf : wf i = true) {j : Nat} {c : Call} {o : CallObs}
-    (hc : i.calls[j]? = some c) (ho : (run i).calls[j]? = some o) :
+/-- **frame, as observed**: after every signing call of every history - successful or not - the repository resolves
+the tag and every digest exactly as just before the call, every descriptor it handed out is unchanged, and so are the
+caller's UserMetadata and PluginConfig maps; the signature counts change by the one push, if any. -/
+theorem frame (i : Input) (hwf : wf i = true) {pre post : List Step} {s : Step} {o : CallObs}
+    (hsplit : i.steps = pre ++ s :: post) (hs : s.op = .sign) (ho : (run i).calls[nSigns pre]? = some o) :
     o.repoViewSame = true ∧ o.handedSame = true ∧ o.optsSame = true ∧
-    o.sigCount = sigsBefore i i.calls j + (if pushes i c then 1 else 0) := by
-  rw [call_obs i hwf hc ho]
+    o.sigCounts = sigsAfter i (tagAfter i.tag pre) s (sigsThrough i i.tag (noSigs i) pre) := by
+  rw [call_obs i hwf hsplit hs ho]
   simp [expectedObs]
 
 /-- **frame, on the heap**: a call leaves every map object that existed before it with exactly the contents it
 had - the repository's, the caller's, whatever else - because the metadata merge and the annotation generation
-write only into cells they allocated (this is where `facts_merge_allocates_fresh_map` is used); the one other
-effect is at most one more signature. Holds from any state reachable in a sequence. -/
-theorem frame_heap (i : Input) (w : World) (c : Call) (hinv : Inv i w) (hd : distinctKeys c.md = true) :
+write only into cells they allocated (this is where `facts_merge_allocates_fresh_map` is used); it does not move
+the tag; the one other effect is at most one more signature. Holds from any state reachable in a history. -/
+theorem frame_heap (i : Input) (w : World) (c : Step) (hinv : Inv i w) (hn : 0 < i.arts.length)
+    (hd : distinctKeys c.md = true) (ht : c.target < i.arts.length) :
     w.heap.cells <+: (signOCI i w c).1.heap.cells ∧
     (∀ r, validRef w.heap r → (signOCI i w c).1.heap.read r = w.heap.read r) ∧
-    (signOCI i w c).1.sigCount = w.sigCount + (if pushes i c then 1 else 0) := by
-  obtain ⟨_, hp, hs, _⟩ := signOCI_spec i w c hinv hd
-  exact ⟨hp, fun r hv => read_of_prefix hp hv, hs⟩
+    (signOCI i w c).1.tag = w.tag ∧
+    (signOCI i w c).1.sigs = sigsAfter i w.tag c w.sigs := by
+  obtain ⟨_, hp, htag, hs, _⟩ := signOCI_spec i w c hinv hn hd ht
+  exact ⟨hp, fun r hv => read_of_prefix hp hv, htag, hs⟩
+
+/-- whether a call succeeds depends on the input, the call and what the tag names now - not on its position, on
+what was signed before, or on what the same reference resolved to earlier -/
+theorem success_independent_of_history (i : Input) (hwf : wf i = true) {pre post : List Step} {s : Step} {o : CallObs}
+    (hsplit : i.steps = pre ++ s :: post) (hs : s.op = .sign) (ho : (run i).calls[nSigns pre]? = some o) :
+    o.ok = expectedOk i (tagAfter i.tag pre) s := by
+  rw [call_obs i hwf hsplit hs ho]; rfl
+
+/-- **a moved tag is followed**: right after the tag was moved (or recreated) to artifact `mv.to`, signing through a
+tag reference hands the signer the descriptor of *that* artifact and attaches the signature to it - whatever the
+same reference resolved to, and whatever was signed, earlier in the history. -/
+theorem signs_what_the_tag_names_now (i : Input) (hwf : wf i = true) {pre post : List Step} {mv s : Step} {o : CallObs}
+    (hsplit : i.steps = pre ++ mv :: s :: post) (hmv : mv.op = .tagTo) (hs : s.op = .sign)
+    (href : refArg s.ref = .tag) (hov : optsValid s.opts = true) (hnr : refused i s mv.to = false)
+    (ho : (run i).calls[nSigns pre]? = some o) :
+    o.signed = some (mkDesc i (mv.to, merged (artAt i mv.to).ann s.md)) ∧
+    (o.ok = true → o.subject = some (mkDesc i (mv.to, (artAt i mv.to).ann)) ∧
+      o.sigCounts = bump mv.to (sigsThrough i i.tag (noSigs i) pre)) := by
+  have hsplit' : i.steps = (pre ++ [mv]) ++ s :: post := by simp [hsplit]
+  have hns : nSigns (pre ++ [mv]) = nSigns pre := by simp [nSigns, hmv]
+  have htag : tagAfter i.tag (pre ++ [mv]) = some mv.to := by rw [tagAfter_snoc]; simp [hmv]
+  have hsigs : sigsThrough i i.tag (noSigs i) (pre ++ [mv]) = sigsThrough i i.tag (noSigs i) pre := by
+    have : ∀ (l : List Step) (tag : Option Nat) (sg : List Nat),
+        sigsThrough i tag sg (l ++ [mv]) = sigsThrough i tag sg l := by
+      intro l
+      induction l with
+      | nil => intro tag sg; simp [sigsThrough, hmv]
+      | cons a l ih => intro tag sg; cases hop : a.op <;> simp [sigsThrough, hop, ih]
+    exact this _ _ _
+  rw [← hns] at ho
+  rw [call_obs i hwf hsplit' hs ho, htag, hsigs]
+  have hra : resolvedArt i (some mv.to) s = some mv.to := by simp [resolvedArt, href]
+  have hann : resolvedAnn i s mv.to = (artAt i mv.to).ann := by simp [resolvedAnn, href]
+  have hrs : reachesSigner i (some mv.to) s = some mv.to := by simp [reachesSigner, hov, hra, hnr]
+  refine ⟨by simp [expectedObs, hrs, hann], ?_⟩
+  intro hok
+  simp only [expectedObs, expectedOk, Bool.and_eq_true] at hok
+  cases hk : (i.signer.kind == SignerKind.ok) with
+  | false => simp [reachesPush, hk] at hok
+  | true =>
+    have hp : i.repo.push = .ok := by simpa using hok.2
+    simp [expectedObs, sigsAfter, pushes, reachesPush, hk, hrs, hann, hp]
+
+/-- **a deleted tag is gone**: right after the tag was deleted, signing through a tag reference fails before the
+signer is called, however often the reference resolved before. -/
+theorem deleted_tag_is_not_signed (i : Input) (hwf : wf i = true) {pre post : List Step} {mv s : Step} {o : CallObs}
+    (hsplit : i.steps = pre ++ mv :: s :: post) (hmv : mv.op = .untag) (hs : s.op = .sign)
+    (href : refArg s.ref = .tag) (ho : (run i).calls[nSigns pre]? = some o) :
+    o.ok = false ∧ o.signed = none ∧ o.subject = none ∧ o.returned = .zero := by
+  have hsplit' : i.steps = (pre ++ [mv]) ++ s :: post := by simp [hsplit]
+  have hns : nSigns (pre ++ [mv]) = nSigns pre := by simp [nSigns, hmv]
+  have htag : tagAfter i.tag (pre ++ [mv]) = none := by rw [tagAfter_snoc]; simp [hmv]
+  rw [← hns] at ho
+  rw [call_obs i hwf hsplit' hs ho, htag]
+  have hra : resolvedArt i none s = none := by simp [resolvedArt, href]
+  have hrs : reachesSigner i none s = none := by
+    simp only [reachesSigner, hra]; split <;> rfl
+  simp [expectedObs, expectedOk, pushes, reachesPush, hrs]
+
+/-- `n` more signatures on artifact `k` -/
+def bumpN (k : Nat) : Nat → List Nat → List Nat
+  | 0, l => l
+  | n + 1, l => bumpN k n (bump k l)
+
+theorem bumpN_succ (k : Nat) : ∀ (n : Nat) (l : List Nat), bumpN k (n + 1) l = bump k (bumpN k n l) := by
+  intro n
+  induction n with
+  | zero => intro l; rfl
+  | succ n ih => intro l; rw [bumpN, ih]; rfl
+
+theorem bump_length (k : Nat) : ∀ l : List Nat, (bump k l).length = l.length := by
+  intro l
+  induction l generalizing k with
+  | nil => cases k <;> rfl
+  | cons x r ih => cases k <;> simp [bump, ih]
+
+theorem bump_getD (k : Nat) : ∀ l : List Nat, k < l.length → (bump k l).getD k 0 = l.getD k 0 + 1 := by
+  intro l
+  induction l generalizing k with
+  | nil => intro h; simp at h
+  | cons x r ih =>
+    intro h
+    cases k with
+    | zero => simp [bump]
+    | succ k =>
+      have := ih k (by simpa using h)
+      simpa [bump] using this
+
+/-- `n` pushes onto artifact `k` leave it with `n` more signatures -/
+theorem bumpN_getD (k : Nat) : ∀ (n : Nat) (l : List Nat), k < l.length → (bumpN k n l).getD k 0 = l.getD k 0 + n := by
+  intro n
+  induction n with
+  | zero => intro l _; rfl
+  | succ n ih =>
+    intro l h
+    rw [bumpN, ih _ (by rw [bump_length]; exact h), bump_getD k l h]
+    omega
+
+theorem sigsThrough_replicate (i : Input) (tag : Option Nat) (s : Step) (hs : s.op = .sign) (k : Nat)
+    (hp : pushes i tag s = some k) : ∀ (n : Nat) (sg : List Nat),
+    sigsThrough i tag sg (List.replicate n s) = bumpN k n sg := by
+  intro n
+  induction n with
+  | zero => intro sg; rfl
+  | succ n ih =>
+    intro sg
+    simp only [List.replicate_succ, sigsThrough, hs, sigsAfter, hp, ih, bumpN]
+
+theorem tagAfter_replicate (tag : Option Nat) (s : Step) (hs : s.op = .sign) : ∀ n, tagAfter tag (List.replicate n s) = tag := by
+  intro n
+  induction n with
+  | zero => rfl
+  | succ n ih => simp [List.replicate_succ, tagAfter, hs, ih]
 
 /-- **idempotent history**: any number of signing calls with the same reference and options, where the call
-succeeds in the first place, succeeds every time, and the `j`-th of them leaves `j+1` signatures. -/
-theorem idempotent_history (i : Input) (hwf : wf i = true) (c : Call) (n : Nat)
-    (hcalls : i.calls = List.replicate n c) (hok : expectedOk i c = true) :
+succeeds in the first place, succeeds every time, and the `j`-th of them has attached `j+1` signatures to the artifact
+the reference resolves to. -/
+theorem idempotent_history (i : Input) (hwf : wf i = true) (s : Step) (n : Nat) (hs : s.op = .sign)
+    (hsteps : i.steps = List.replicate n s) (hok : expectedOk i i.tag s = true) :
     (run i).calls.length = n ∧
-    ∀ j o, (run i).calls[j]? = some o → o.ok = true ∧ o.sigCount = j + 1 := by
-  have hp : pushes i c = true := by
-    simp only [expectedOk, Bool.and_eq_true] at hok
-    simp only [pushes, hok.1, Bool.true_and]
-    have := hok.2
-    cases hpk : i.repo.push <;> simp [hpk] at this ⊢
-  refine ⟨by rw [run_eq_spec i hwf]; simp [specCalls_length, hcalls], ?_⟩
-  intro j o ho
-  have hj : j < n := by
-    rw [run_eq_spec i hwf] at ho
-    have := (List.getElem?_eq_some_iff.1 ho).1
-    simpa [specCalls_length, hcalls] using this
-  have hc : i.calls[j]? = some c := by simp [hcalls, hj]
-  rw [call_obs i hwf hc ho]
-  have hsb : sigsBefore i i.calls j = j := by
-    simp only [sigsBefore, hcalls, List.take_replicate]
-    rw [List.filter_eq_self.2]
-    · simp; omega
-    · intro a ha
-      rw [(List.mem_replicate.1 ha).2]; exact hp
-  simp [expectedObs, hok, hp, hsb]
-
-/-- whether a call succeeds does not depend on its position or on what was signed before -/
-theorem success_independent_of_history (i : Input) (hwf : wf i = true) {j : Nat} {c : Call} {o : CallObs}
-    (hc : i.calls[j]? = some c) (ho : (run i).calls[j]? = some o) : o.ok = expectedOk i c := by
-  rw [call_obs i hwf hc ho]; rfl
+    ∃ k, resolvedArt i i.tag s = some k ∧
+      ∀ j o, (run i).calls[j]? = some o → o.ok = true ∧ o.sigCounts = bumpN k (j + 1) (noSigs i) := by
+  simp only [expectedOk, Bool.and_eq_true] at hok
+  have hpk : i.repo.push = .ok := by simpa using hok.2
+  cases hrp : reachesPush i i.tag s with
+  | none => simp [hrp] at hok
+  | some k =>
+    have hp : pushes i i.tag s = some k := by simp [pushes, hpk, hrp]
+    have hra : resolvedArt i i.tag s = some k := by
+      have h1 : reachesSigner i i.tag s = some k := by
+        simp only [reachesPush] at hrp
+        split at hrp
+        · exact hrp
+        · simp at hrp
+      simp only [reachesSigner] at h1
+      split at h1
+      · split at h1
+        · rename_i k' hk'
+          split at h1
+          · simp at h1
+          · simp at h1; rw [hk']; simp [h1]
+        · simp at h1
+      · simp at h1
+    have hlen : (run i).calls.length = n := by
+      rw [run_eq_spec i hwf, hsteps]
+      simp [specSteps_length, hs]
+    refine ⟨hlen, k, hra, ?_⟩
+    intro j o ho
+    have hj : j < n := by
+      have := (List.getElem?_eq_some_iff.1 ho).1
+      omega
+    have hsplit : i.steps = List.replicate j s ++ s :: List.replicate (n - j - 1) s := by
+      rw [hsteps]
+      have : n = j + ((n - j - 1) + 1) := by omega
+      conv => lhs; rw [this]
+      rw [← List.replicate_append_replicate, List.replicate_succ]
+    have hns : nSigns (List.replicate j s) = j := by simp [nSigns, hs]
+    rw [← hns] at ho
+    rw [call_obs i hwf hsplit hs ho, tagAfter_replicate _ _ hs, sigsThrough_replicate i i.tag s hs k hp]
+    refine ⟨by simp [expectedObs, expectedOk, hrp, hpk], ?_⟩
+    simp only [expectedObs, sigsAfter, hp, bumpN_succ]
 
 theorem facts_annotation_keys :
     Facts.c11ThumbprintKey ≠ Facts.c11CreatedKey ∧ isReserved Facts.c11ThumbprintKey = true ∧
@@ -666,23 +959,25 @@ theorem facts_annotation_keys :
 /-- **the pushed annotations, exactly**: the plugin's annotations with the thumbprint list (JSON array of the
 SHA-256 hex of each chain certificate, in chain order) and `created` (signing time, RFC 3339, UTC) written over
 them - nothing else. -/
-theorem pushed_annotations_exact (i : Input) (hwf : wf i = true) {j : Nat} {c : Call} {o : CallObs}
-    (hc : i.calls[j]? = some c) (ho : (run i).calls[j]? = some o) (a : AnnMap) (ha : o.pushAnn = some a) :
+theorem pushed_annotations_exact (i : Input) (hwf : wf i = true) {pre post : List Step} {s : Step} {o : CallObs}
+    (hsplit : i.steps = pre ++ s :: post) (hs : s.op = .sign) (ho : (run i).calls[nSigns pre]? = some o)
+    (a : AnnMap) (ha : o.pushAnn = some a) :
     a = expectedPushAnn i ∧
     look Facts.c11ThumbprintKey a = some (jsonArray i.signer.thumbs) ∧
     look Facts.c11CreatedKey a = some (rfc3339 i.signer.time) ∧
     ∀ k, k ≠ Facts.c11ThumbprintKey → k ≠ Facts.c11CreatedKey → look k a = look k i.signer.pluginAnn := by
-  rw [call_obs i hwf hc ho] at ha
+  rw [call_obs i hwf hsplit hs ho] at ha
   have hae : a = expectedPushAnn i := by
-    by_cases h : reachesPush i c = true <;> simp [expectedObs, h] at ha
-    exact ha.symm
+    simp only [expectedObs] at ha
+    cases hr : reachesPush i (tagAfter i.tag pre) s with
+    | none => simp [hr] at ha
+    | some k => simp [hr] at ha; exact ha.symm
   subst hae
   refine ⟨rfl, ?_, ?_, ?_⟩
   · simp [expectedPushAnn, look_put, facts_annotation_keys.1]
   · simp [expectedPushAnn, look_put]
   · intro k h1 h2
     simp [expectedPushAnn, look_put, h1, h2]
-
 
 /-! ### Go's random map iteration order does not matter -/
 
@@ -774,49 +1069,66 @@ theorem write_target_is_a_map (h : Heap) (ann : MapRef) (md : AnnMap) (hne : md 
 
 /-! ### non-vacuity -/
 
-def exArt : Art := { mediaType := ['m'], digest := ['d'], size := 3, ann := [(['a'], ['1'])] }
-def exCall (r : Ref) (md : AnnMap) : Call := { ref := r, md := md, opts := .jws }
-def exInput (calls : List Call) : Input :=
-  { backend := "mock", art := exArt, repo := { aliased := true, plainByDigest := false, anyDigest := true, push := .ok },
-    signer := { kind := .ok, thumbs := [['a', 'b']], time := 951782400, pluginAnn := [] }, pluginConfig := [], calls := calls }
+def exArtA : Art := { mediaType := ['m'], digest := ['A'], size := 3, ann := [(['a'], ['1'])] }
+def exArtB : Art := { mediaType := ['m'], digest := ['B'], size := 4, ann := [(['c'], ['3'])] }
+def exSign (r : Ref) (md : AnnMap) : Step := { op := .sign, to := 0, ref := r, target := 0, md := md, opts := .jws }
+def exTagTo (k : Nat) : Step := { op := .tagTo, to := k, ref := .tag, target := 0, md := [], opts := .jws }
+def exUntag : Step := { op := .untag, to := 0, ref := .tag, target := 0, md := [], opts := .jws }
+def exInput (steps : List Step) : Input :=
+  { backend := "mock", arts := [exArtA, exArtB], tag := some 0,
+    repo := { aliased := true, plainByDigest := false, anyDigest := true, push := .ok },
+    signer := { kind := .ok, thumbs := [['a', 'b']], time := 951782400, pluginAnn := [] }, pluginConfig := [], steps := steps }
 
 /-- signing the same tag three times with the same metadata succeeds three times -/
-example : ((run (exInput (List.replicate 3 (exCall .fullTag [(['b'], ['2'])])))).calls.map (fun o => (o.ok, o.sigCount))) =
-    [(true, 1), (true, 2), (true, 3)] := by decide
+example : ((run (exInput (List.replicate 3 (exSign .fullTag [(['b'], ['2'])])))).calls.map (fun o => (o.ok, o.sigCounts))) =
+    [(true, [1, 0]), (true, [2, 0]), (true, [3, 0])] := by decide
 
-example : ((run (exInput [exCall .fullTag [(['b'], ['2'])]])).calls.map (·.signed)) =
-    [some { mediaType := ['m'], digest := ['d'], size := 3, ann := [(['a'], ['1']), (['b'], ['2'])] }] := by decide
+example : ((run (exInput [exSign .fullTag [(['b'], ['2'])]])).calls.map (·.signed)) =
+    [some { mediaType := ['m'], digest := ['A'], size := 3, ann := [(['a'], ['1']), (['b'], ['2'])] }] := by decide
 
-example : ((run (exInput [exCall .digest []])).calls.map (·.pushAnn)) =
+/-- the tag is moved between two uses of the same reference with the same options: the second call signs what the
+tag names now; after the tag is deleted the call fails; after it is recreated the call signs again -/
+example : ((run (exInput [exSign .fullTag [], exTagTo 1, exSign .fullTag [], exUntag, exSign .fullTag [],
+      exTagTo 0, exSign .fullTag []])).calls.map (fun o => (o.ok, o.signed.map (·.digest), o.sigCounts))) =
+    [(true, some ['A'], [1, 0]), (true, some ['B'], [1, 1]), (false, none, [1, 1]), (true, some ['A'], [2, 1])] := by decide
+
+example : ((run (exInput [exSign .digest []])).calls.map (·.pushAnn)) =
     [some [(Facts.c11ThumbprintKey, "[\"ab\"]".toList), (Facts.c11CreatedKey, "2000-02-29T00:00:00Z".toList)]] := by decide
 
 /-- a collision, a reserved key and a digest mismatch are refused, and a later good call is unaffected -/
-example : ((run (exInput [exCall .tag [(['a'], ['2'])], exCall .tag [("io.cncf.notary.x".toList, [])],
-      exCall .fullOtherDigest [], exCall .tag [(['b'], ['2'])]])).calls.map (fun o => (o.ok, o.sigCount))) =
-    [(false, 0), (false, 0), (false, 0), (true, 1)] := by decide
+example : ((run (exInput [exSign .tag [(['a'], ['2'])], exSign .tag [("io.cncf.notary.x".toList, [])],
+      exSign .fullOtherDigest [], exSign .tag [(['b'], ['2'])]])).calls.map (fun o => (o.ok, o.sigCounts))) =
+    [(false, [0, 0]), (false, [0, 0]), (false, [0, 0]), (true, [1, 0])] := by decide
 
-example : Holds (exInput [exCall .tag [(['b'], ['2'])]]) (run (exInput [exCall .tag [(['b'], ['2'])]])) = true := by decide
+example : Holds (exInput [exSign .tag [(['b'], ['2'])], exTagTo 1, exSign .tag [(['b'], ['2'])]])
+    (run (exInput [exSign .tag [(['b'], ['2'])], exTagTo 1, exSign .tag [(['b'], ['2'])]])) = true := by decide
 
 /-- `Holds` rejects the behaviour of the code before 303ff26: metadata written into the repository's map
 (subject carries it, repository view changed), second call refused -/
-example : Holds (exInput [exCall .tag [(['b'], ['2'])], exCall .tag [(['b'], ['2'])]])
+example : Holds (exInput [exSign .tag [(['b'], ['2'])], exSign .tag [(['b'], ['2'])]])
     { calls := [
       { ok := true, resolveArg := some .tag,
-        signed := some { mediaType := ['m'], digest := ['d'], size := 3, ann := [(['a'], ['1']), (['b'], ['2'])] },
-        subject := some { mediaType := ['m'], digest := ['d'], size := 3, ann := [(['a'], ['1']), (['b'], ['2'])] },
+        signed := some { mediaType := ['m'], digest := ['A'], size := 3, ann := [(['a'], ['1']), (['b'], ['2'])] },
+        subject := some { mediaType := ['m'], digest := ['A'], size := 3, ann := [(['a'], ['1']), (['b'], ['2'])] },
         pushAnn := some (expectedPushAnn (exInput [])), returned := .resolved,
-        repoViewSame := false, handedSame := false, optsSame := true, sigCount := 1 },
+        repoViewSame := false, handedSame := false, optsSame := true, sigCounts := [1, 0] },
       { ok := false, resolveArg := some .tag, signed := none, subject := none, pushAnn := none, returned := .zero,
-        repoViewSame := false, handedSame := false, optsSame := true, sigCount := 1 }] } = false := by decide
+        repoViewSame := false, handedSame := false, optsSame := true, sigCounts := [1, 0] }] } = false := by decide
 
-/-- ... and names the clauses -/
-example : (clauses (exInput [exCall .tag [(['b'], ['2'])]])
+/-- `Holds` rejects a repository client that remembers what a reference resolved to: after the tag moved to B the
+second call still signs A and attaches the signature to A - and names the clauses -/
+example : (clauses (exInput [exSign .tag [], exTagTo 1, exSign .tag []])
     { calls := [
       { ok := true, resolveArg := some .tag,
-        signed := some { mediaType := ['m'], digest := ['d'], size := 3, ann := [(['a'], ['1']), (['b'], ['2'])] },
-        subject := some { mediaType := ['m'], digest := ['d'], size := 3, ann := [(['a'], ['1']), (['b'], ['2'])] },
+        signed := some { mediaType := ['m'], digest := ['A'], size := 3, ann := [(['a'], ['1'])] },
+        subject := some { mediaType := ['m'], digest := ['A'], size := 3, ann := [(['a'], ['1'])] },
         pushAnn := some (expectedPushAnn (exInput [])), returned := .resolved,
-        repoViewSame := false, handedSame := true, optsSame := true, sigCount := 1 }] }).failed =
-    ["subject_is_resolved_descriptor", "frame"] := by decide
+        repoViewSame := true, handedSame := true, optsSame := true, sigCounts := [1, 0] },
+      { ok := true, resolveArg := some .tag,
+        signed := some { mediaType := ['m'], digest := ['A'], size := 3, ann := [(['a'], ['1'])] },
+        subject := some { mediaType := ['m'], digest := ['A'], size := 3, ann := [(['a'], ['1'])] },
+        pushAnn := some (expectedPushAnn (exInput [])), returned := .resolved,
+        repoViewSame := true, handedSame := true, optsSame := true, sigCounts := [2, 0] }] }).failed =
+    ["signs_resolved_plus_metadata", "subject_is_resolved_descriptor", "one_signature_per_push"] := by decide
 
 end NotationModel.C11
